@@ -7,8 +7,11 @@ use std::net::{IpAddr, Ipv4Addr, Ipv6Addr};
 use wirefilter::{Array, LhsValue, Map, Type};
 
 pub const INT_POOL: [i64; 12] = [i64::MIN, i64::MAX, 0, -1, 1, 2, 5, 7, 8, 255, 256, -256];
-pub const BYTES_POOL: [&[u8]; 11] =
-    [b"", b"a", b"ab", b"abc", b"b", b"AB", b"\xff", b"a\x00b", b"xyz", b"dflt", b"a b"];
+pub const BYTES_POOL: [&[u8]; 15] = [
+    b"", b"a", b"ab", b"abc", b"b", b"AB", b"\xff", b"a\x00b", b"xyz", b"dflt", b"a b",
+    // non-ASCII text, and text that looks like a value of another type
+    b"caf\xc3\xa9", b"\xe6\x97\xa5\xe6\x9c\xac", b"10.0.0.1", b"::1",
+];
 pub const KEY_POOL: [&str; 5] = ["", "a", "b", "k", "\u{e9}"];
 pub const LIST_NAMES: [&str; 4] = ["l1", "a.b", "x_9", "0"];
 
@@ -281,6 +284,13 @@ impl<'a> G<'a> {
                 k += 1;
             }
             format!("r{h}\"{s}\"{h}", h = "#".repeat(k))
+        } else if let (true, Ok(text)) = (style >= 3 && !b.is_ascii(), std::str::from_utf8(b)) {
+            // valid non-ASCII UTF-8 typed directly in the source
+            if style == 3 && !text.contains('"') {
+                format!("r\"{text}\"")
+            } else {
+                format!("\"{}\"", text.replace('\\', "\\\\").replace('"', "\\\""))
+            }
         } else {
             let mut t = String::from("\"");
             for &c in b {
